@@ -885,6 +885,19 @@ theorem autoTransit_of_not_stepComplete {i : Inst} {s : State} (h : stepComplete
     autoTransit i f s = s := by
   cases f <;> simp [autoTransit, h]
 
+/-- in a finished state every operation of every job is scheduled -/
+theorem all_sched_of_done {i : Inst} {s : State} (hinv : Inv i s) (hd : s.done = true) :
+    ∀ j, j < i.J → ∀ o, i.startOp j ≤ o → o ≤ i.endOp j → s.sched o = true := by
+  intro j hj o h1 h2
+  have hall : ∀ j, j < i.J → s.jobDone j = true := by
+    have := hinv.doneIff; rw [hd] at this
+    exact allUpTo_iff.mp this.symm
+  have hjd := hinv.jdone j hj (hall j hj)
+  apply (hinv.schedIff j hj o h1 h2).mpr
+  by_cases ho : o = s.nextOp j
+  · exact Or.inr ⟨ho, Or.inr (hall j hj)⟩
+  · left; rw [hjd.1]; rw [hjd.1] at ho; omega
+
 /-! ### concrete well-formed instances used by the non-vacuity examples of the property files -/
 
 /-- 2 jobs × 2 operations, 2 machines, every operation eligible on both machines (3 time units),
